@@ -612,6 +612,165 @@ def c15(out, tier):
     return finish_mc(out, npaths, obl, len(states), [{"bounds": bounds}])
 
 
+def c10(out, tier):
+    from lib import tokchecks as TC
+    from mirsym import build, tok, models as MD
+    from mirsym.program import Program
+    import random, subprocess
+    mir, _, dt = build.dump_mir("tendril")
+    exe = build.replay_binary("dev")
+    exe_rel = build.replay_binary("release")
+    SRC = ["tendril/src/stream.rs", "tendril/src/utf8_decode.rs"]
+    out.extra.update({"mir_dump_s": round(dt, 1), "source_hash": C.src_hash(SRC), "source_files": SRC})
+
+    def native(ex, chunks):
+        inp = "mode decode\n" + "".join("bytes %s\n" % bytes(c).hex() for c in chunks)
+        p = subprocess.run([ex], input=inp.encode(), stdout=subprocess.PIPE, stderr=subprocess.PIPE, timeout=30)
+        o = p.stdout.decode(errors="replace").strip()
+        return o if p.returncode == 0 else "PANIC " + p.stderr.decode(errors="replace")[-200:]
+
+    def expect(bs):
+        s_ = bytes(bs).decode("utf-8", errors="replace")
+        return "out %s errors %d" % (s_.encode("utf-8").hex(), s_.count("\ufffd") - bytes(bs).decode("utf-8", errors="ignore").count("\ufffd"))
+
+    # encoder self-validation: concrete runs of the interpreted decoder vs the native decoder (and CPython's decoder as a third opinion)
+    TC._init(mir, None, "tendril")
+    rnd = random.Random(3000 + C.seed())
+    pool = [0x41, 0x80, 0xBF, 0xC2, 0xE0, 0xA0, 0xED, 0x9F, 0xF0, 0x90, 0xF4, 0x8F, 0xC0, 0xFF, 0xE1, 0xF1, 0x7F, 0xEF, 0xBB]
+    bad = []
+    nval = 150 if tier == "quick" else 600
+    for _ in range(nval):
+        n = rnd.randint(0, 7)
+        bs = [rnd.choice(pool) for _ in range(n)]
+        cuts = sorted(rnd.sample(range(n + 1), min(n + 1, rnd.randint(0, 3))))
+        lens, prev = [], 0
+        for c_ in cuts + [n]:
+            lens.append(c_ - prev)
+            prev = c_
+        r = TC.unit_c10({"lens": lens, "fixed": {i: b for i, b in enumerate(bs)}})
+        chunks, pos = [], 0
+        for l in lens:
+            chunks.append(bs[pos:pos + l])
+            pos += l
+        nat = native(exe, chunks)
+        if r["violations"] or r["panics"] or r["errors"] or nat != expect(bs):
+            bad.append((bs, lens, nat, expect(bs), r["violations"][:1], r["panics"][:1], r["errors"][:1]))
+    out.extra["traces_validated_against_impl"] = nval
+    if bad and all(b[2] == b[3] for b in bad):
+        out.inconclusive.append("encoder self-validation (decoder): interpreter/reference disagree with the native decoder on %d concrete cases, e.g. %r" % (len(bad), bad[0]))
+        return finish_mc(out, 0, 0, 0, ["self-validation failed"])
+    # symbolic part
+    def comps(n, maxparts=3):
+        res_ = []
+        for a in range(n + 1):
+            for b in range(n + 1 - a):
+                res_.append([a, b, n - a - b])
+        return res_
+    units = [{"lens": [1]}, {"lens": [0, 1, 0]}, {"lens": [2]}, {"lens": [1, 1]}, {"lens": [1, 0, 1]}]
+    units += [{"lens": l} for l in comps(3)]
+    if tier == "quick":
+        units += [{"lens": l} for l in ([4, 0, 0], [1, 3, 0], [2, 2, 0], [3, 1, 0], [1, 1, 2], [1, 2, 1], [2, 1, 1])]
+    else:
+        units += [{"lens": l} for l in comps(4)]
+    # 5 and 6 bytes: a concrete lead byte from every class, the rest symbolic, cut everywhere (one or two cuts)
+    leads = [0xF0, 0xE2, 0xC3, 0xED, 0xF4, 0x41] if tier == "thorough" else [0xF0, 0xE0]
+    for lead in leads:
+        for cut in ([1, 2, 3, 4] if tier == "thorough" else [2, 3]):
+            units.append({"lens": [cut, 5 - cut], "fixed": {0: lead, 4: 0xC3 if tier == "quick" else 0xE2}})
+    rnd.shuffle(units)
+    res = TC.run_units_fn(TC.unit_c10, units, mir, None, crate="tendril")
+    npaths = sum(r["paths"] for r in res)
+    obl = sum(r["obligations"] for r in res)
+    out.queries += sum(r["queries"] for r in res)
+    seen = set()
+    for r in res:
+        for e in r["errors"]:
+            out.inconclusive.append("%s: %s" % (r["unit"], e[-300:]))
+        for v in r["violations"] + r["panics"]:
+            if not v.get("chars"):
+                continue
+            key = "C10|%s|%s" % (v.get("label", "panic"), bytes(v["chars"]).hex())
+            if key in seen:
+                continue
+            seen.add(key)
+            chunks, pos = [], 0
+            for l in v["lens"]:
+                chunks.append(v["chars"][pos:pos + l])
+                pos += l
+            nat, natr = native(exe, chunks), native(exe_rel, chunks)
+            if nat != expect(v["chars"]) or natr != expect(v["chars"]):
+                out.violation("Utf8LossyDecoder on bytes %s split %s gives '%s' but a whole-input lossy decode is '%s'" % (bytes(v["chars"]).hex(), v["lens"], nat, expect(v["chars"])),
+                              {"engine": "mirsym", "kind": "decode", "bytes": bytes(v["chars"]).hex(), "lens": v["lens"], "native": nat, "expected": expect(v["chars"])}, key)
+            else:
+                out.inconclusive.append("C10 counter-example %s %s does not reproduce natively" % (bytes(v["chars"]).hex(), v["lens"]))
+    if bad:
+        b = bad[0]
+        if b[2] != b[3]:
+            out.violation("Utf8LossyDecoder on bytes %s split %s gives '%s' but a whole-input lossy decode is '%s' (found by the concrete self-validation corpus)" % (bytes(b[0]).hex(), b[1], b[2], b[3]),
+                          {"engine": "mirsym", "kind": "decode", "bytes": bytes(b[0]).hex(), "lens": b[1], "native": b[2], "expected": b[3]}, "C10|corpus|%s" % bytes(b[0]).hex())
+    bounds = "every byte string of 1..3 symbolic bytes in every split into up to 3 chunks (empty chunks included); 4 symbolic bytes in %s splits; 5-byte strings with a concrete lead byte per class and a second sequence at the end, cut at every position" % ("7" if tier == "quick" else "all 15")
+    out.units.append({"engine": "mirsym + z3", "what": "Utf8LossyDecoder::{new,process,finish}, decode_utf8, IncompleteUtf8::* (interpreted MIR of tendril) vs reference maximal-subpart decoder",
+                      "bounds": bounds, "work_units": len(res), "paths_explored": npaths, "obligations": obl})
+    out.extra["models_used"] = sorted(set(x for r in res for x in r.get("models_used", [])))
+    out.assumptions += M_ASSUME[:1] + ["core::str::from_utf8 / Utf8Error are modelled from their documented contract (Unicode table 3-7; valid_up_to, error_len); Tendril<Bytes> as a byte list (C11)",
+                                       "oracle: /verif/spec/utf8_lossy_ref.py (maximal subpart rule); cross-checked against the native decoder and CPython's on every run",
+                                       "not covered: LossyDecoder over encoding_rs (feature off in this build), the parse-to-same-tree half (reduces to C03)"]
+    return finish_mc(out, npaths, obl, len(units), [{"bounds": bounds}])
+
+
+def c19(out, tier):
+    TC, tok, prog, mir, ent, exe, exe_rel = tok_setup(out)
+    out.extra["source_files"] = ["html5ever/src/encoding.rs"]
+    out.extra["source_hash"] = C.src_hash(["html5ever/src/encoding.rs"])
+    q = tier == "quick"
+    shapes = [[10 if q else 12], ["charset", 5 if q else 6], [2, "charset", 4 if q else 5], ["charset", 2, "charset", 3 if q else 4], ["CHARSET ", 4 if q else 5],
+              ["charset=", 5 if q else 6], ["charset='", 5 if q else 6], ['charset="', 5 if q else 6], ["charset = ", 4 if q else 5], ["charsetcharset", 4],
+              [1, "harset=", 3], ["charse", 4], ["text/html; charset=", 4 if q else 5], ["charset", 1, "=", 3, ";", 2], ["x charset \t\n\r\x0c=", 4]]
+    units = [{"shape": sh, "cls": 1} for sh in shapes] + [{"shape": sh, "cls": 2} for sh in ([["charset=", 3], [5, "charset=a"]] if q else [["charset=", 4], [6, "charset=a"], ["charset", 4]])]
+    res = TC.run_units_fn(TC.unit_c19, units, mir, ent)
+    npaths = sum(r["paths"] for r in res)
+    obl = sum(r["obligations"] for r in res)
+    out.queries += sum(r["queries"] for r in res)
+    seen = set()
+    for r in res:
+        for e in r["errors"]:
+            out.inconclusive.append("%s: %s" % (r["unit"], e[-300:]))
+        for v in r["violations"] + [dict(p, label="panic", impl="panic") for p in r["panics"]]:
+            key = "C19|%s|%s" % (v["label"], "".join(map(chr, v["chars"]))[:40] if v.get("chars") else "?")
+            if key in seen or not v.get("chars"):
+                continue
+            seen.add(key)
+            # native confirmation: the extractor is pub(crate); its observable effect is the EncodingIndicator label of
+            # <meta http-equiv=content-type content=...>, replayed through the real parser by the replay binary ("meta" mode)
+            s_in = "".join(map(chr, v["chars"]))
+            # the attribute value goes through input preprocessing on its way to the extractor
+            s_in = s_in.replace("\r\n", "\n").replace("\r", "\n").replace("\0", "\ufffd")
+            nat = meta_native(exe, s_in)
+            from spec import meta_charset_ref as R
+            from mirsym.interp import Machine
+            ref = R.extract(Machine(None, []), list(s_in.encode("utf-8")))
+            refs = None if ref is None else bytes(ref).decode("utf-8", "replace")
+            if nat != ("none" if refs is None else "label:" + refs):
+                out.violation("meta content %r: extractor gives %s, WHATWG algorithm gives %r" % (s_in, nat, refs),
+                              {"engine": "mirsym", "kind": "meta", "content": s_in, "native": nat, "reference": refs}, key)
+            else:
+                out.inconclusive.append("C19 counter-example %r does not reproduce natively (native %s)" % (s_in, nat))
+    out.units.append({"engine": "mirsym + z3", "what": "extract_a_character_encoding_from_a_meta_element (interpreted MIR) vs the WHATWG algorithm, per path",
+                      "shapes": [u["shape"] for u in units], "paths_explored": npaths, "obligations": obl})
+    out.extra["models_used"] = sorted(set(x for r in res for x in r.get("models_used", [])))
+    out.assumptions += M_ASSUME[:1] + ["content strings are walked as shapes: concrete pieces interleaved with runs of symbolic bytes (ASCII, and 2-byte UTF-8 characters in separate runs)",
+                                       "part (b) of the property - in which insertion modes a <meta> raises the indicator, exactly once, and that resuming is clean - lives in the tree builder (rules.rs), which engine M does not encode: not claimed"]
+    return finish_mc(out, npaths, obl, len(units), [{"shapes": [u["shape"] for u in units]}])
+
+
+def meta_native(exe, content):
+    """feed '<meta http-equiv=content-type content=...>' to the real parser (replay binary, meta mode) -> 'none' | 'label:<x>'"""
+    import subprocess
+    p = subprocess.run([exe], input=("mode meta\ncontent %s\n" % content.encode("utf-8").hex()).encode(), stdout=subprocess.PIPE, stderr=subprocess.PIPE, timeout=30)
+    out_ = p.stdout.decode(errors="replace").strip().splitlines()
+    return out_[-1] if out_ else "error:" + p.stderr.decode(errors="replace")[-200:]
+
+
 def snap_ents(snap):
     return None if snap is None else {k_: tuple(v) for k_, v in snap.items()}
 
@@ -659,7 +818,7 @@ def tok_finish_c01(out, TC, tok, prog, results, exe, exe_rel, bounds):
     return npaths, obl
 
 
-PROPS = {"C01": c01, "C14": c14, "C15": c15, "C07": c07, "C13": c13, "C03": c03, "C04": c04, "C08": c08, "C09": c09}
+PROPS = {"C01": c01, "C10": c10, "C14": c14, "C15": c15, "C19": c19, "C07": c07, "C13": c13, "C03": c03, "C04": c04, "C08": c08, "C09": c09}
 
 
 def replay(path):
